@@ -56,6 +56,7 @@ fn main() {
         "C06" => drive::<vcore::c06::C06>(&args),
         "C09" => drive::<vcore::c09::C09>(&args),
         "C13" => drive::<vcore::c13::C13>(&args),
+        "C20" => drive::<vcore::c20::C20>(&args),
         "C15" => drive::<vcore::c15::C15>(&args),
         _ => {
             eprintln!("unknown property id {id}");
